@@ -68,8 +68,11 @@ def run_table(table_path, tag):
     viol, n_eval, distinct, samples, skipped = [], 0, 0, [], 0
     nontrivial = 0
 
+    percl = {}
+
     def bad(clause, sig, det):
-        if len(viol) < 500:
+        percl[clause] = percl.get(clause, 0) + 1
+        if percl[clause] <= 120:
             viol.append({"clause": clause, "signature": sig, "detail": det})
 
     for li, line in enumerate(open(table_path)):
@@ -111,7 +114,10 @@ def run_table(table_path, tag):
                     r = sea.select_new_population(p, o)
                     got = sorted(rank_of(f, maximize) for f in r.fitnesses)
                     if got != c["expect"]:
-                        bad("C12_MuPlusKTruncation", sig, {"got": got, "expected": c["expect"]})
+                        # the exact (mu + k) survivor set is mechanism; C12 itself asks for "best never worse" and the size
+                        bad("Info_MuPlusKModel", sig, {"got": got, "expected": c["expect"]})
+                    if got and min(got) > min(c["parents"]):
+                        bad("C12_BestNotWorse", sig, {"got": got, "parents": c["parents"]})
                     allg = {g.tobytes() for g in p.genomes} | {g.tobytes() for g in o.genomes}
                     if any(g.tobytes() not in allg for g in r.genomes) or r.size != p.size:
                         bad("C12_PopSize", sig, {"size": int(r.size)})
@@ -127,7 +133,8 @@ def run_table(table_path, tag):
                     exp_idx = [c["win"][a][b] - 1 for a, b in pairs]
                     got_idx = [int(np.where((p.genomes == g).all(axis=1))[0][0]) for g in r.genomes]
                     if got_idx != exp_idx:
-                        bad("C13_TournamentSelection", sig, {"got": got_idx, "expected": exp_idx, "pairs": pairs.tolist()})
+                        # depends on how the operator draws its pairs: mechanism, not property (C13 = direction symmetry below)
+                        bad("Info_TournamentModel", sig, {"got": got_idx, "expected": exp_idx, "pairs": pairs.tolist()})
                     res_by_dir[maximize] = got_idx
                 elif op == "replace":
                     n = len(c["parents"])
@@ -148,12 +155,13 @@ def run_table(table_path, tag):
                         got = sorted(rank_of(i.fitness, maximize) for i in new)
                         if got != sorted(c["expect"]):
                             bad("C12_OneToOneReplacement", sig + f" engine={eng_name}", {"got": got, "expected": sorted(c["expect"])})
-                        pg = {i.genome.tobytes() for i in parents}
-                        newcomers = sum(1 for i in new if i.genome.tobytes() not in pg)
-                        if newcomers != len(c["wins"]) or len(new) != n:
+                        ng = {i.genome.tobytes() for i in new}
+                        replaced = sorted(k + 1 for k, i in enumerate(parents) if i.genome.tobytes() not in ng)   # 1-based like TLA+
+                        # every strictly better trial wins, no strictly worse one does; ties are left to the engine
+                        if not (set(c["swins"]) <= set(replaced) <= set(c["wins"])) or len(new) != n:
                             bad("C12_OneToOneReplacement", sig + f" engine={eng_name}",
-                                {"trial_wins": newcomers, "expected": len(c["wins"]), "size": len(new)})
-                        res_by_dir[(maximize, eng_name)] = got
+                                {"replaced_parents": replaced, "must_win": sorted(c["swins"]), "may_win": sorted(c["wins"]), "size": len(new)})
+                        res_by_dir[(maximize, eng_name)] = [got, replaced]
             except Exception as ex:  # noqa: BLE001
                 bad("C12_SelectionRaises" if op in ("select", "replace", "topk") else "C13_SelectionRaises", sig, {"exception": repr(ex)[:300]})
         # C13: same decision on both formulations
